@@ -77,7 +77,7 @@ def near(a: Any, b: Any) -> bool:
 def matrix(mapping: dict, old_vecs: tuple, new_vecs: tuple, subs: dict) -> sp.Matrix:
     rows = []
     for ov in old_vecs:
-        e = sp.expand(mapping[ov])
+        e = sp.expand(mapping.get(ov, ov))  # an absent vector is left as it is
         row = []
         rest = e
         for nv in new_vecs:
@@ -85,7 +85,7 @@ def matrix(mapping: dict, old_vecs: tuple, new_vecs: tuple, subs: dict) -> sp.Ma
             row.append(c.subs(subs))
             rest = rest - c * nv
         if sp.expand(rest) != 0:
-            raise ValueError(f"{ov} is not a combination of the new base vectors: {mapping[ov]}")
+            raise ValueError(f"{ov} is not a combination of the new base vectors: {mapping.get(ov, ov)}")
         rows.append(row)
     return sp.Matrix(rows)
 
@@ -94,7 +94,7 @@ def mnear(A: sp.Matrix, B: sp.Matrix) -> bool:
     return all(near(a, b) for a, b in zip(A, B))
 
 
-def pair_cases(an: str, bn: str) -> list[tuple[str, str]]:
+def pair_cases(an: str, bn: str, variant: str = "") -> list[tuple[str, str]]:
     from symplyphysics.core.experimental.coordinate_systems import (express_base_scalars,
         express_base_vectors, convert_point, convert_vector)
     from symplyphysics.core.experimental.points import AppliedPoint
@@ -102,6 +102,23 @@ def pair_cases(an: str, bn: str) -> list[tuple[str, str]]:
     A, B = sy[an], sy[bn]
     if an == bn:
         B = type(A)()  # a second instance of the same type: trivial renaming
+    # systems built with the optional constructor arguments: the second one on the base vectors
+    # (or on the base scalars) of another instance; both are still two systems
+    if variant == "shared-vectors":
+        B = type(B)(base_vectors=(A if an == bn else type(B)()).args[1])
+    elif variant == "shared-scalars":
+        B = type(B)(base_scalars=(A if an == bn else type(B)()).base_scalars)
+    if variant:
+        bn_tag = f"{bn}[{variant}]"
+        return [(k.replace(f"{an}->{bn}:", f"{an}->{bn_tag}:"), v) for k, v in _pair_cases(an, bn, A,
+            B)]
+    return _pair_cases(an, bn, A, B)
+
+
+def _pair_cases(an: str, bn: str, A: Any, B: Any) -> list[tuple[str, str]]:
+    from symplyphysics.core.experimental.coordinate_systems import (express_base_scalars,
+        express_base_vectors, convert_point, convert_vector)
+    from symplyphysics.core.experimental.points import AppliedPoint
     out = []
     ab = express_base_scalars(A, B)  # A scalars in terms of B scalars
     ba = express_base_scalars(B, A)
@@ -334,6 +351,8 @@ def _work(item: tuple) -> dict:
 def main(run: Run) -> int:
     items: list[tuple] = [("pair", a, b) for a, b in itertools.permutations(NAMES, 2)]
     items += [("pair", a, a) for a in NAMES]
+    items += [("pair", a, b, v) for a, b in itertools.product(NAMES, repeat=2) for v in (
+        "shared-vectors", "shared-scalars")]
     items += [("triple", a, b, c) for a, b, c in itertools.permutations(NAMES, 3)]
     items.append(("lame", ))
     items += [("history", a, b) for a, b in itertools.product(NAMES, repeat=2)]
@@ -346,7 +365,8 @@ def main(run: Run) -> int:
         rule="6 ordered pairs (+3 same-type pairs) and 6 ordered triples of systems x lattice points "
         "of each domain x {scalar round trip, scalars vs geometry, orthonormality, determinant, "
         "inverse, rotation vs local frames, composition via the third system, convert_point, "
-        "convert_vector on 4 vectors}; conversion histories of one point object (two instances of "
+        "convert_vector on 4 vectors}; the same with the second system built on the base vectors / "
+        "base scalars of another instance (optional constructor arguments); conversion histories of one point object (two instances of "
         "the target type, back, third type, again; point first / vector first); Lame coefficients and Jacobian at every lattice point",
         exhaustive=True,
         assumptions=["lattice points inside each system's domain, away from the axis", "values "
